@@ -5,7 +5,7 @@ from oracle_util import *  # noqa
 from protocol import from_real, pm
 
 ID = "C17"
-LEAN_MODULE = ["SCoda.Props.C17", "SCoda.Props.Notes", "SCoda.Props.NotesB", "SCoda.Props.WrapTie"]
+LEAN_MODULE = ["SCoda.Props.C17", "SCoda.Props.Notes", "SCoda.Props.NotesB", "SCoda.Props.WrapTie", "SCoda.Props.AbsTie2"]
 LEVEL = "proof"
 CLAUSES = [
     ("reflexive (every list, every flag set) and symmetric", ["SCoda.C17.refl", "SCoda.C17.symm"]),
@@ -38,6 +38,8 @@ CLAUSES = [
     ("each of the velocity / time-signature / key-signature flags: sequences differing only in that attribute compare equal with the flag and unequal without it",
      ["SCoda.NotesB.flag_velocity_only", "SCoda.NotesB.flag_velocity_strict", "SCoda.NotesB.flag_time_signature_only", "SCoda.NotesB.flag_time_signature_strict",
       "SCoda.NotesB.flag_key_signature_only", "SCoda.NotesB.flag_key_signature_strict"]),
+    ('TIE BY TRANSLATION, absolute view with object identity: the dict-heavy / aliasing methods of AbsoluteSequence are re-translated statement by statement on every run (Gen/AbsFns2.lean, tools/py2lean_abs2.py: Message objects live in a heap, a reference is a position tag, stores through any alias update the heap cell, dicts are insertion-ordered association lists, while loops carry proved fuel bounds) and proved equal to the hand models, for every heap and reference list with references into the heap and channels not None: equals = the model equalsAbs for all four flags, get_interleaved_message_pairings = the model interleaved — for ALL inputs since the repair of D30 (on inputs with only unopened note-offs both return the empty list: interleaved_onlyOrphanOffs; the translation of the unrepaired source raised IndexError there, which is how D30 was found)',
+     ["SCoda.AbsTie2.equalsAbs_eq", "SCoda.AbsTie2.interleaved_eq", "SCoda.AbsTie2.interleaved_onlyOrphanOffs", "SCoda.AbsTie2.channelsWithoutPairings_input", "SCoda.AbsTie2.pairings_eq"]),
 ]
 RULE = ("base well-formed sequences (<=6 notes, signatures) paired with: themselves, shuffled insertion orders, the relative "
         "re-representation, and every single-attribute perturbation (pitch, onset, duration, velocity, channel relabel, "
